@@ -430,11 +430,12 @@ def values_from_test(code):
 # one build = one scratch workspace + one cargo kani run
 # --------------------------------------------------------------------------
 class Build:
-    def __init__(self, prop, variant, gnames, scratch_root):
+    def __init__(self, prop, variant, gnames, scratch_root, hunt=False):
         self.prop = prop
         self.variant = variant  # 'plain' | 'map' | 'cli'
+        self.hunt = hunt        # bug-hunting build: short timeout, a timeout is "no claim", not inconclusive
         self.gnames = gnames
-        self.root = os.path.join(scratch_root, variant)
+        self.root = os.path.join(scratch_root, variant + ("-hunt" if hunt else ""))
         self.ws = os.path.join(self.root, "ws")
         self.tdir = os.path.join(self.root, "target")
         self.harness_files = {}
@@ -521,10 +522,15 @@ def check_property(prop, tier, seed, only=None, keep=False):
     timeout_s = P.get("timeout", {}).get(tier, 300 if tier == "quick" else 1200)
     mem_gb = P.get("mem_gb", 16)
 
+    # harnesses named hunt_* are bug-hunting only (DESIGN 1.8): own build, short timeout
     by_variant = {}
     for gn, hs in sel.items():
-        if hs:
-            by_variant.setdefault(variant_of(gn), {})[gn] = hs
+        prove = [h for h in hs if not h.startswith("hunt_")]
+        hunt = [h for h in hs if h.startswith("hunt_")]
+        if prove:
+            by_variant.setdefault((variant_of(gn), False), {})[gn] = prove
+        if hunt:
+            by_variant.setdefault((variant_of(gn), True), {})[gn] = hunt
     builds = []
     inconclusive = []
     violations = []
@@ -533,8 +539,8 @@ def check_property(prop, tier, seed, only=None, keep=False):
     harness_records = []
     exit_code = 0
     try:
-        for variant, gsel in by_variant.items():
-            b = Build(prop, variant, list(gsel), scratch_root)
+        for (variant, hunt), gsel in by_variant.items():
+            b = Build(prop, variant, list(gsel), scratch_root, hunt=hunt)
             b.sel = gsel
             builds.append(b)
         # prepare sequentially (cheap), run in parallel with a split of the cores
@@ -546,7 +552,7 @@ def check_property(prop, tier, seed, only=None, keep=False):
 
         def runb(b, jobs):
             try:
-                b.run(b.sel, jobs, timeout_s, mem_gb)
+                b.run(b.sel, jobs, HUNT_TIMEOUT_S if b.hunt else timeout_s, mem_gb)
             except Inconclusive as e:
                 errors.append(str(e))
             except Exception as e:  # noqa
@@ -581,8 +587,11 @@ def check_property(prop, tier, seed, only=None, keep=False):
                 es = (r.get("error") or {}).get("exit_status")
                 if r["n_checks"] == 0:
                     why = es or (r.get("error") or {}).get("error_type") or "no result"
-                    inconclusive.append(f"{h}: no verdict ({why}; timeout/OOM/CBMC error)")
-                    rec["verdict"] = "inconclusive:" + str(why)
+                    if b.hunt:
+                        rec["verdict"] = f"hunt:no-counterexample-within-{HUNT_TIMEOUT_S}s (no claim)"
+                    else:
+                        inconclusive.append(f"{h}: no verdict ({why}; timeout/OOM/CBMC error)")
+                        rec["verdict"] = "inconclusive:" + str(why)
                     harness_records.append(rec)
                     continue
                 if r["undetermined"]:
@@ -808,6 +817,7 @@ def replay_batch(b, items, timeout_s, budget=8):
 
 
 REAL_MAP_RUNS = 48
+HUNT_TIMEOUT_S = 120
 
 
 def confirm_on_real_map(b, chosen):
@@ -887,7 +897,8 @@ def write_evidence(prop, tier, seed, recs, violations, known_hits, inconclusive,
                      "distinct by construction; one counts as non-trivial when it produced verification conditions and at "
                      "least one of its kani::cover! witnesses was satisfied (non-vacuous)"),
             "samples": samples,
-            "queries_discharged": len([r for r in recs if not str(r.get("verdict", "")).startswith("inconclusive")]),
+            "queries_discharged": len([r for r in recs if not str(r.get("verdict", "")).startswith(("inconclusive", "hunt:"))]),
+            "bug_hunting_only": [r["harness"] for r in recs if str(r.get("verdict", "")).startswith("hunt:")],
             "vccs_generated": sum((r.get("vccs") or 0) for r in recs),
             "vccs_after_slicing": sum((r.get("vccs_remaining") or 0) for r in recs),
             "program_steps": sum((r.get("program_steps") or 0) for r in recs),
